@@ -18,7 +18,7 @@ LEVEL_TEXT = ("Post-condition monitor on the real integral_matching_reference_st
 LEVEL_NOTE = ("Trusts the oracle's own integration rules and neighbour search (models/), float64 comparison at 1e-9 "
               "relative to the magnitude of the integrand terms (widened by the abscissa conditioning factor); the "
               "post-smoothing argument s is left at None (outside the statement).")
-TECHNIQUE = "runtime post-condition monitor (independent integrals of the returned series vs reference integrals) under generated workloads"
+TECHNIQUE = "runtime post-condition monitor (independent integrals of the returned series vs reference integrals) under generated workloads; thread-isolation monitor (concurrent vs sequential answers, first-use rounds with sys.monitoring yield injection)"
 RULE = ("random cases: x class x y class x fixed-point layout (gaps>=2) x mode {search(closest/lower/higher), "
         "positions, indices} x on/off-grid reference (incl. beyond both ends, unmatched extra reference points) x "
         "2x2 rules x alpha in {.25,.5,1,2,3.7,U(.1,6)} x containers, function and Weaver route; lattice part: all "
